@@ -76,7 +76,8 @@ META = {
         "API script, 0-2 quantity generators, engine / EngineBuilder / EngineBuilder with per-chain states) executed twice with "
         "fresh objects. rw: real RWKernel(s) on a Gaussian dict model through EngineBuilder with replicated or per-chain initial "
         "states, jitter (none / deterministic shift / key-using bounded noise), int seed vs PRNGKey twin, and a twin in which one "
-        "chain's start is perturbed. Non-trivial = at least one transition executed; distinct = distinct configuration tuple.",
+        "chain's start is perturbed. Every 6th run is additionally repeated in a fresh interpreter process under another PYTHONHASHSEED and "
+        "the event-log digests are compared. Non-trivial = at least one transition executed; distinct = distinct configuration tuple.",
         "kernel transitions x chains (MCMC iterations)",
         "distinct (chains, chunk, construction path, kernels, schedule, script, jitter, perturbation) tuples",
         E_REAL + ["liesel.goose.RWKernel, mh_step (rw sub-batch)"], E_STUB + ["Gaussian dict log-density (rw sub-batch)"],
@@ -173,7 +174,8 @@ META = {
         "Each run = one generated model program (world-M generator plus unnamed nodes/vars, groups, seeded nodes, shared inputs), "
         "built with copy on/off, followed by a history of 4-14 ops: assignments, auto-update toggles, updates, set_seed, round trips "
         "(pop + rebuild, copy_nodes_and_vars + rebuild, deepcopy, save/load through BytesIO and through a scratch file), F6 "
-        "mutate-attempts (every guarded mutator of Node, Calc, Dist, Var incl. transform) and invalid constructions (duplicate node / "
+        "mutate-attempts (every guarded mutator of Node, Calc, Dist, Var incl. transform, and a variable outside the model taking a Dist of the "
+        "model) and invalid constructions (duplicate node / "
         "var / group names - hand-written and generated: the run's own program plus a free or var-owned node re-using one of its node "
         "names -, reserved name, cycles via set_inputs and via Dist.at). Non-trivial = at least one round trip or mutate "
         "attempt; distinct = distinct (program shape, op-kind sequence).",
